@@ -88,6 +88,55 @@ def huge_file():
     return ('scale-2m', b)
 
 
+def huge_multi_file():
+    """Several sections over 1 MiB in ONE file (equal lengths, then a
+    shorter one, then a preamble-bearing change): what one section leaves
+    behind must not leak into a later, damaged one."""
+    from mc.alphabets import sized_text
+    M = ['meta', {'path': 'f'}, None]
+    b, _ = spec.serialize([
+        ['preamble', sized_text(1100000, 'lines', '\n', 'P'), None, 2, None,
+         None],
+        ['change', None], ['file', None], M,
+        ['diff', sized_text(1200000, 'lines', '\n', 'A').encode(), None,
+         None, None],
+        ['file', None], M,
+        ['diff', sized_text(1200000, 'lines', '\n', 'B').encode(), None,
+         None, None],
+        ['file', None], M,
+        ['diff', sized_text(1100007, 'lines', '\n', 'C').encode(), None,
+         None, None],
+        ['change', None],
+        ['preamble', sized_text(1150000, 'lines', '\n', 'Q'), None, 0, None,
+         None],
+        ['file', None], M], 'utf-8')
+    return ('scale-multi', b)
+
+
+def huge_files():
+    return [huge_file(), huge_multi_file()]
+
+
+def multi_cuts(data, lay):
+    """Quick-tier cut points for the multi-section file: +-6 bytes around
+    every section boundary, and a few offsets inside each big section."""
+    pts = set()
+    for hs, cs, ce, sid, nlb in lay:
+        for c in (hs, cs, ce):
+            pts |= set(range(max(0, c - 6), min(len(data), c + 7)))
+        if ce - cs > 100000:
+            for off in (70, 1000, 4099, 65536 + 17, 262144 + 3, 1048576 + 5,
+                        (ce - cs) // 2 + 11, ce - cs - 4099):
+                pts |= set(range(cs + off - 1, cs + off + 2))
+    return sorted(p for p in pts if 0 <= p <= len(data))
+
+
+def cuts_for(hfi, data, lay, tier):
+    if hfi == 1 and tier == 'quick':
+        return multi_cuts(data, lay)
+    return huge_cuts(data, lay)
+
+
 def huge_cuts(data, lay):
     """Cut points for the 2.3 MB file: every offset within +-48 bytes of
     each section boundary and of each power-of-two / buffer-size offset
@@ -344,12 +393,14 @@ def plan(tier):
         for lo in range(0, len(data) + 1, step):
             units.append(('cut', fi, lo, min(lo + step, len(data) + 1)))
         units.append(('perturb', fi))
-    hname, hdata = huge_file()
-    hlay = layout(hdata)
-    hc = huge_cuts(hdata, hlay)
-    for i in range(0, len(hc), 60):
-        units.append(('huge-cut', i, i + 60))
-    units.append(('huge-perturb',))
+    for hfi, (hname, hdata) in enumerate(huge_files()):
+        hlay = layout(hdata)
+        hc = cuts_for(hfi, hdata, hlay, tier)
+        for i in range(0, len(hc), 40):
+            units.append(('huge-cut', i, i + 40, hfi))
+        for hi in range(len(hlay)):
+            if hlay[hi][3] in spec.CONTENT_IDS:
+                units.append(('huge-perturb', hi, hfi))
     return {
         'units': units,
         'rule': '%d well-formed files (every section kind, indent, CRLF '
@@ -358,7 +409,9 @@ def plan(tier):
                 'examples) x EVERY truncation point 0..len(file) (%d cuts) '
                 'and x every content header x %d length perturbations '
                 '(+-1..8, 0, negative, abc, 1.5, 1_0, 0x10, 007, 20 digits, '
-                'missing); plus a 2.3 MB file cut at every offset within +-48 '
+                'missing); plus a 5.9 MB file with five sections over 1 MiB '
+                '(equal and unequal lengths) cut around every boundary and '
+                'inside every big section, and a 2.3 MB file cut at every offset within +-48 '
                 'bytes of each section boundary and of each power-of-two / '
                 'buffer-size offset inside its big section, its first 200 '
                 'and last 400 bytes and every 9973rd byte. Oracle: truncation -> records are a prefix (full '
@@ -378,12 +431,12 @@ def plan(tier):
 def run_unit(unit, tier):
     acc = Acc()
     if unit[0] in ('huge-cut', 'huge-perturb'):
-        name, data = huge_file()
+        name, data = huge_files()[unit[-1]]
         ref_recs, exc, _, _ = read_all(data)
         ref = [rec_core(r) for r in ref_recs]
         lay = layout(data)
         if unit[0] == 'huge-cut':
-            for cut in huge_cuts(data, lay)[unit[1]:unit[2]]:
+            for cut in cuts_for(unit[-1], data, lay, tier)[unit[1]:unit[2]]:
                 viols = check_cut(name, data, ref, lay, cut)
                 acc.evals += 1
                 acc.states += 1
@@ -398,7 +451,7 @@ def run_unit(unit, tier):
             acc.sample({'file': name, 'bytes': len(data)}, 1)
         else:
             for hi, (hs, cs, ce, sid, nlb) in enumerate(lay):
-                if sid not in spec.CONTENT_IDS:
+                if sid not in spec.CONTENT_IDS or hi != unit[1]:
                     continue
                 for p in PERTURB:
                     viols = check_perturb(name, data, ref, lay, hi, p)
@@ -460,7 +513,7 @@ def replay(payload):
     k = payload.get('kind')
     if k not in ('cut', 'perturb'):
         return []
-    fs = files('thorough') + [huge_file()]
+    fs = files('thorough') + huge_files()
     cand = [(n, d) for n, d in fs if n == payload['name']]
     name, data = cand[0]
     ref_recs, exc, _, _ = read_all(data)
